@@ -983,6 +983,10 @@ func (app *BaseApp) runTx(mode runTxMode, txBytes []byte, tx sdk.Tx) (result sdk
 	// Create a new context based off of the existing context with a cache wrapped
 	// multi-store in case message processing fails.
 	runMsgCtx, newMS := app.txContext(ctx, txBytes) // todo edit here!!!
+	if mode == runTxModeSimulate {
+		// a simulation must never touch the working state: run the handler on a cache that is thrown away
+		runMsgCtx = runMsgCtx.WithMultiStore(newMS.CacheMultiStore())
+	}
 	result = app.runMsg(runMsgCtx, msgs, mode)
 	result.GasWanted = gasWanted
 
